@@ -81,11 +81,12 @@ class Duck:
 class TorchLikeDtype:
     """dtype object whose repr is 'torch.float32' (the 'everyone else' path)."""
 
-    def __init__(self, name):
+    def __init__(self, name, prefix="torch."):
         self._n = name
+        self._p = prefix
 
     def __repr__(self):
-        return "torch." + self._n
+        return self._p + self._n
 
 
 def stack_depth() -> int:
